@@ -60,6 +60,7 @@ type decompressor struct {
 	err           error
 	peekSize      int
 	eof           bool
+	haveBits      bool // the last decoding step did not stop for lack of input
 }
 
 func (r *decompressor) Reset(under io.Reader, _ []byte) error {
@@ -76,6 +77,7 @@ func (r *decompressor) Reset(under io.Reader, _ []byte) error {
 
 	r.peekSize = 0
 	r.eof = false
+	r.haveBits = false
 	r.err = nil
 	r.readPos = 0
 	r.writePos = 0
@@ -116,13 +118,24 @@ func (f *decompressor) step() (err error) {
 	}
 
 	if state.input == nil {
-		state.input, err = f.rBuf.Peek(f.rBuf.Size())
-		f.peekSize = len(state.input)
-		if err != nil && err != bufio.ErrBufferFull && err != io.EOF {
-			return err
+		// Decode what the source has already delivered.  The source is asked for more
+		// only when nothing new is buffered and the decoder has run out of bits (it
+		// may have stopped on a full output window with symbols left in the bit
+		// buffer), and then for no more than it gives by itself: waiting for a full
+		// buffer (or EOF) would block on input that the data in hand does not need.
+		// The whole bytes held in the bit buffer are still at the front of rBuf.
+		held := int(f.state.bitsLen / 8)
+		f.eof = false
+		if f.rBuf.Buffered() <= held && !f.haveBits {
+			_, err = f.rBuf.Peek(held + 1)
+			if err != nil && err != bufio.ErrBufferFull && err != io.EOF {
+				return err
+			}
+			f.eof = err == io.EOF
 		}
-		f.eof = err == io.EOF
-		state.input = state.input[f.state.bitsLen/8:]
+		state.input, _ = f.rBuf.Peek(f.rBuf.Buffered())
+		f.peekSize = len(state.input)
+		state.input = state.input[held:]
 	}
 	f.readPos = f.writePos
 
@@ -136,6 +149,7 @@ func (f *decompressor) step() (err error) {
 	startInputSize, startBitsLen := len(f.state.input), int(f.state.bitsLen)
 	err = f.decomperss()
 	f.state.rOffset(startInputSize, startBitsLen)
+	f.haveBits = err != errEndInput
 
 	if isError(err) || (err == errEndInput && f.eof) {
 		discardSize := f.peekSize - len(f.state.input) - int(state.bitsLen/8)
@@ -154,7 +168,8 @@ func (f *decompressor) step() (err error) {
 	}
 
 	err = nil
-	if state.phase == phaseStreamEnd && f.writePos == f.readPos {
+	if state.phase == phaseStreamEnd {
+		// Read hands out the decoded bytes before it reports this error
 		state.phase = phaseFinish
 		err = io.EOF
 	}
